@@ -10,7 +10,10 @@ from harness.impl import fordrun as F
 
 IMPORTS = "From Ford Require Import Base.Str Sem.Access Sem.Display Corr.C05."
 CASE_T = "case"
-THEOREMS = []
+THEOREMS = ["C05_statement_refuted", "C05_prune_exact", "C05_visible_sound", "C05_pages", "C05_display_inherit",
+            "C05_display_inherit_file_refuted", "C05_refuted_enum", "C05_refuted_internals_enum",
+            "C05_refuted_common", "C05_refuted_namelist", "C05_refuted_namelist_page", "C05_refuted_final",
+            "C05_refuted_doc_place"]
 REGIONS = {1: "enum-never-filtered", 2: "common-never-filtered", 4: "namelist-never-filtered",
            8: "final-never-filtered", 16: "file-display-not-inherited", 32: "interface-doc-place"}
 FORD_LISTS = ["modules", "submodules", "programs", "blockdata", "functions", "subroutines", "types", "interfaces",
@@ -229,6 +232,9 @@ def site_allowed(files, sel):
                     names = [n["target"]]
                 elif n["id"] in sel and n["kind"] == "generic":
                     names = n["members"]
+                if n["id"] in sel and n["kind"] == "modproc":
+                    # `module procedure x`: its dummy arguments are those declared (and documented) in the interface
+                    ok |= {a["id"] for a in D.kids(n["implements"], "args")}
                 for nm in names:
                     if nm in procs:
                         ok.add(procs[nm]["id"])
@@ -358,31 +364,151 @@ def all_cfgs(rng=None, n=None):
     return cfgs
 
 
+def exhaustive_cases():
+    """the fixed program x project display (9) x one metadata override (file / module / type / procedure x 8
+    word sets, or none given) x proc_internals x hide_undoc"""
+    out = []
+    for level in (None, "file", "module", "type", "procedure"):
+        for meta in ([[]] if level is None else D.DISPLAYS[1:]):
+            for cfg in all_cfgs():
+                out.append((level, meta, cfg))
+    return out
+
+
+# ---------------------------------------------------------------------------------------------- findings
+
+def _parse(src, **kw):
+    with F.Work({"src/demo.f90": src}) as w:
+        return F.parse_project(w.root, dbg=False, **kw)
+
+
+FINDINGS = {
+    "enum-never-filtered": lambda: bool(_parse(
+        "module m\n  private\n  enum, bind(c)\n    !! e\n    enumerator :: a = 1\n  end enum\nend module m\n",
+        display=["public"]).modules[0].enums),
+    "common-never-filtered": lambda: bool(_parse(
+        "module m\n  !! display: none\n  !! text\n  integer :: v\n  common /blk/ cx\n    !! c\nend module m\n",
+        display=["public"]).modules[0].common),
+    "namelist-never-filtered": lambda: bool(_parse(
+        "module m\n  private\ncontains\n  subroutine helper()\n    integer :: lv\n      !! doc\n"
+        "    namelist /nl/ lv\n  end subroutine helper\nend module m\n", display=["public"]).namelists),
+    "final-never-filtered": lambda: bool(_parse(
+        "module m\n  type t\n    !! display: none\n    !! text\n    integer :: c\n  contains\n    final :: fin\n"
+        "  end type t\ncontains\n  subroutine fin(x)\n    type(t) :: x\n  end subroutine fin\nend module m\n",
+        display=["public"]).modules[0].types[0].finalprocs),
+    "file-display-not-inherited": lambda: not _parse(
+        "!! display: private\n!! text\nmodule m\n  integer, private :: v\n    !! doc\nend module m\n",
+        display=["public"]).modules[0].variables,
+    "interface-doc-place": lambda: not _parse(
+        "module m\n  abstract interface\n    subroutine cb(x)\n      !! doc\n      integer :: x\n"
+        "    end subroutine cb\n  end interface\nend module m\n", display=["public"], hide_undoc=True).modules[0].absinterfaces,
+}
+
+
+def replay_findings(chk):
+    for key, still in FINDINGS.items():
+        try:
+            chk.known(key, bool(still()))
+        except Exception:  # noqa — the witness no longer parses: not the recorded behaviour
+            chk.known(key, False)
+
+
+# ---------------------------------------------------------------------------------------------- protocol
+
 def run(chk):
-    chk.build(["theories/Corr/C05.vo"])
+    chk.build(["theories/Corr/C05.vo", "theories/Props/C05.vo"])
+    chk.props("theories/Props/C05.v", THEOREMS)
     rng = chk.rng
     stats = collections.Counter()
     quick = chk.tier == "quick"
-    for k in range(20 if quick else 300):
+    if not quick:
+        chk.coqchk(["Ford.Props.C05"])
+
+    # (1) the fixed program under the product of options (sampled in the quick tier, complete in the thorough one)
+    cases = exhaustive_cases()
+    total = len(cases)
+    if quick:
+        cases = rng.sample(cases, 220)
+    by_text = collections.defaultdict(list)
+    for level, meta, cfg in cases:
+        by_text[(level, tuple(meta))].append(cfg)
+    for (level, meta), cfgs in by_text.items():
+        files, levels = D.template_project()
+        if level:
+            levels[level]["display"] = list(meta)
+        texts = D.render_project(files)
+        for cfg in cfgs:
+            chk.count(("product", level, meta, json.dumps(cfg, sort_keys=True)),
+                      sample={"level": level, "meta": meta, "cfg": cfg, "files": texts})
+        check_project(chk, files, texts, cfgs, f"fixed program, display {list(meta)} at {level}", stats)
+    chk.extra["exhaustive"] = {"cases": total, "run": len(cases), "complete": len(cases) == total,
+                               "domain": "fixed program x project display {8 subsets, none} x one metadata "
+                                         "override at file/module/type/procedure level {8 word sets} or none x "
+                                         "proc_internals x hide_undoc"}
+
+    # (2) random projects (enums, common blocks, namelists, final procedures, submodules with module-procedure
+    #     implementations, internal procedures, metadata at every level) under random configurations
+    for k in range(24 if quick else 400):
         files = D.gen_project(rng)
         texts = D.render_project(files)
         cfgs = all_cfgs(rng, 6 if quick else 12)
         for cfg in cfgs:
-            chk.count(("random", k, json.dumps(cfg, sort_keys=True)),
-                      sample={"cfg": cfg, "files": texts} if k == 0 else None)
+            chk.count(("random", k, json.dumps(cfg, sort_keys=True)), nontrivial=True)
         check_project(chk, files, texts, cfgs, "random project", stats)
-    for k in range(6 if quick else 60):
+
+    # (3) end to end: tracer words, pages, links and graph nodes of full runs
+    for k in range(8 if quick else 80):
         files = D.gen_project(rng)
         texts = D.render_project(files)
         cfg = rng.choice(all_cfgs())
         chk.count(("e2e", k, json.dumps(cfg, sort_keys=True)))
-        end_to_end_one(chk, files, texts, cfg, stats, graph=(k % 3 == 0))
+        end_to_end_one(chk, files, texts, cfg, stats, graph=(k % 4 == 0))
     chk.extra["distribution"] = dict(stats)
+
+    # (4) recorded findings: are they still there?
+    replay_findings(chk)
 
 
 def replay(chk, rep):
+    if "tree" in rep and "cfg" in rep:
+        f, cfg, texts = rep["tree"], rep["cfg"], rep["files"]
+        files = [f]
+        r = run_ford(files, {k: v for k, v in texts.items()}, cfg)
+        if r[0] == "EXC":
+            print("FORD raised:", r[1])
+            return 1
+        impl, perms, pages = r
+        chk.build(["theories/Corr/C05.vo"])
+        term = coq_case(files, cfg, impl, pages)[0]
+        res = chk.coq_judge(IMPORTS, CASE_T, "judge", [term])
+        print(texts.get("src/" + f["name"], ""))
+        print("cfg:", cfg)
+        print("(model/impl differences, model pages, impl pages, spec differences with region):")
+        print(chk.coq_eval(IMPORTS, f"diagnose {term}"))
+        print("judge code:", res)
+        return 1 if res and any(c & 1 or (c & 2 and (c >> 2) in (0,) ) for c in res.values()) else 0
+    if "files" in rep and "cfg" in rep:
+        print("re-run of the end-to-end search needs the abstract project; files:", sorted(rep["files"]))
+        for k in ("what", "entity", "where", "page", "href"):
+            if k in rep:
+                print(k, ":", rep[k])
+        return 0
+    print("nothing to replay in", sorted(rep))
     return 0
 
 
 def finish(chk):
-    return chk.finish(level_note="", trusted_base=[], rule="", checker_cmd="", assumptions=[])
+    return chk.finish(
+        level_note="Coq proofs over all entity trees (any size, depth, configuration) about a model of FORD's display "
+                   "inheritance, prune() and visible flags; model tied to ford.sourceform / Project.correlate by "
+                   "differential runs; template-level half covered by the tracer-word search only",
+        trusted_base=["Coq 8.16.1 kernel (vm_compute for cases and witnesses)",
+                      "harness/gen/display.py (generator, renderer tree -> Fortran text), harness/props/c05.py",
+                      "hand-written model and Spec in Sem/Display.v",
+                      "entity.permission as FORD computes it (property C04) is an input of the tree",
+                      "Jinja templates, tipue search: not modelled — searched end to end (incl_src: false)"],
+        rule="distinct = distinct (text, configuration) of the option product, of a random project, or of a full run",
+        checker_cmd="make theories/Props/C05.vo && coqc theories/Props/C05.v (Print Assumptions)",
+        assumptions=["no EXTENDS, no USE association between the generated modules",
+                     "the procedure behind a selected binding / generic interface counts as shown at that site "
+                     "(DESIGN §6 C05)", "source listings (incl_src) are not documentation text"])
